@@ -151,7 +151,7 @@ def gen_reject_faults(rng, script, ncycles, rate=0.5):
     for _ in range(rng.randint(1, 2)):
         n, w = rng.choice(ins)
         faults.append({'kind': 'reject_step', 'at': rng.randrange(ncycles), 'wire': n,
-                       'value': bad_value(rng, w)})
+                       'value': bad_value(rng, w) if rng.random() < 0.75 else 'missing'})
     return faults
 
 
@@ -171,6 +171,38 @@ def apply_reject(sim, fault, cyc_inputs, label):
     """Offer an illegal step; return a Violation if it is not refused cleanly."""
     import pyrtl
     bad = dict(cyc_inputs)
+    if fault['value'] == 'missing':
+        # a step that gives one Input no value at all: pyrtl.Simulation refuses it up front with
+        # PyrtlError ('has no input value specified'). FastSimulation has no such check (it
+        # fails with KeyError wherever the value is first looked up -- in the generated code,
+        # or only in the tracer after the state was committed when the input is read
+        # conditionally) and CompiledSimulation accepts the step; a step without a value for an
+        # Input is not a legal step under any property, so it is offered to Simulation only
+        if type(sim).__name__ != 'Simulation':
+            return None
+        del bad[fault['wire']]
+        before = tracelen(sim)
+        try:
+            sim.step(bad)
+        except (pyrtl.PyrtlError, KeyError):
+            if tracelen(sim) != before:
+                return Violation('reject_step', 'trace_grew_on_rejected_step',
+                                 {'sim': label, 'fault': fault}, [label, 'missing_input'])
+            return None
+        raise common.Inconclusive('step without a value for %s was simulated' % fault['wire'])
+    if fault['value'] == 'rom_hole':
+        # the stimulus makes a RomBlock without padding read an address it has no data for:
+        # Simulation and FastSimulation refuse the step with PyrtlError from the middle of their
+        # evaluation (CompiledSimulation is not built for such designs)
+        before = tracelen(sim)
+        try:
+            sim.step(dict(fault['inputs']))
+        except pyrtl.PyrtlError:
+            if tracelen(sim) != before:
+                return Violation('reject_step', 'trace_grew_on_rejected_step',
+                                 {'sim': label, 'fault': {'value': 'rom_hole'}}, [label, 'rom_hole'])
+            return None
+        raise common.Inconclusive('the reference model predicted a ROM hole the simulator did not hit')
     bad[fault['wire']] = fault['value']
     before = tracelen(sim)
     try:
